@@ -24,7 +24,7 @@ import zlib
 from harness import core, gen, histcheck, isoapi
 
 LEAN_MODULES = ['Pycdlib.Props.C12', 'Pycdlib.Props.Tie']
-THEOREMS = ['Pycdlib.Hybrid.calc_cc_spec', 'Pycdlib.Hybrid.calc_cc_tie', 'Pycdlib.Hybrid.part_covers', 'Pycdlib.Hybrid.mbr_rba',
+THEOREMS = ['Pycdlib.Hybrid.calc_cc_spec', 'Pycdlib.Hybrid.backup_gpt_in_padding', 'Pycdlib.Hybrid.calc_cc_tie', 'Pycdlib.Hybrid.part_covers', 'Pycdlib.Hybrid.mbr_rba',
             'Pycdlib.crc32_tie', 'Pycdlib.crc32_table_spec', 'Pycdlib.crc32Byte_table']
 PARTIAL = {
     'mbr_shape / gpt_mirror partial': 'byte layout of MBR/GPT/APM and primary/backup mirroring are decided by the independent decoder per '
@@ -34,7 +34,7 @@ TRUSTED = ['the MBR/GPT/APM decoder in this file (struct + zlib.crc32) as the in
 ASSUMPTIONS = ['uuid4 / getrandbits frozen to a deterministic sequence']
 RULE = ('scenario = cfg x pre-edits x {plain, efi, efi+mac} sections with different sizes x add_isohybrid parameters; distinct = scenario; '
         'non-trivial = geometry/offset/entry differ from the defaults or efi/mac sections exist')
-LEVEL_TEXT = ('Lean 4 theorems: _calc_cc (regenerated from isohybrid.py each run) pads to a whole cylinder with padding < cylinder and '
+LEVEL_TEXT = ('Lean 4 theorems: _calc_cc (regenerated from isohybrid.py each run) pads to a whole cylinder (padding < cylinder; with EFI the least such padding holding the backup GPT) and '
               'cc = min(cylinders, 1024) for every geometry and size; partition bounds computed from an El Torito entry cover exactly '
               'its sectors at 4 x sector; isohybrid.crc32 (table regenerated) is the bit-by-bit CRC-32 for every byte string. The '
               'byte layout and cross-structure consistency are decided by an independent decoder per scenario.')
@@ -53,11 +53,12 @@ def run_fn(ctx):
         for size in (0, 1, cyl - 1, cyl, cyl + 1, 1024 * cyl - 2048, 1024 * cyl, 1025 * cyl + 4096, rng.randrange(1, 10 ** 9) // 2048 * 2048):
             if size < 0:
                 continue
-            ih = isohybrid.IsoHybrid()
-            ih.new(False, False, 1, 1, 0, s, h, 0x17)
-            cc, pad = ih._calc_cc(size)
-            reqs.append('calccc %d %d %d' % (size, h, s))
-            impl.append('%d %d' % (cc, pad))
+            for efi in (False, True):
+                ih = isohybrid.IsoHybrid()
+                ih.new(efi, False, 1, 1, 0, s, h, 0x17 if not efi else 0)
+                cc, pad = ih._calc_cc(size)
+                reqs.append('calccc %d %d %d %d' % (size, h, s, 1 if efi else 0))
+                impl.append('%d %d' % (cc, pad))
     for _ in range(100 if ctx.quick else 3000):
         data = bytes(rng.randrange(256) for _ in range(rng.choice([0, 1, 4, 92, 128, 1000])))
         reqs.append('crc32 %s' % core.hexs(data))
@@ -84,13 +85,15 @@ def decode_gpt_header(b):
 
 def scenario(ctx, rng, tmpdir):
     import pycdlib
-    cfg = gen.sample_cfg(rng, {'udf': None})
+    cfg = gen.sample_cfg(rng, {} if rng.random() < 0.3 else {'udf': None})
     seed = scenario.seed
     viol = lambda sig, msg: ctx.violation(sig, msg, {'kind': 'scenario', 'seed': seed})   # noqa
     variant = rng.choice(['plain', 'plain', 'efi', 'mac'])
     sizes = {'boot': 2048, 'efi': rng.choice([2048, 4096, 10240]), 'mac': rng.choice([2048, 6144, 40960])}
     lsz = {'efi': rng.choice([None, 8, 4]), 'mac': rng.choice([None, 20, 12])}
-    s_geo, h_geo = rng.choice([(32, 64), (32, 64), (63, 255), (rng.randint(1, 63), rng.randint(1, 256))])
+    # small geometries make images of 256 / 512 / 768 / 1024+ cylinders (the high cylinder bits and the 1024 clamp)
+    s_geo, h_geo = rng.choice([(32, 64), (32, 64), (63, 255), (rng.randint(1, 63), rng.randint(1, 256)),
+                               (rng.choice([1, 2, 4]), rng.choice([1, 2, 4, 8])), (1, rng.choice([1, 2, 3, 4]))])
     hy = {'geometry_sectors': s_geo, 'geometry_heads': h_geo, 'part_entry': rng.choice([1, 1, 2, 3, 4]),
           'part_offset': rng.choice([0, 0, 1, 63]), 'mbr_id': rng.choice([None, 0, 0x12345678, 0xffffffff])}
     if variant == 'plain':
@@ -176,8 +179,12 @@ def scenario(ctx, rng, tmpdir):
         viol('C12.transparent', 'bytes from 32768 on differ between the hybrid image and the plain image of the same edits')
     if len(img) % cyl != 0:
         viol('C12.padding', 'hybrid image length %d is not a whole number of %d-byte cylinders' % (len(img), cyl))
-    if len(img) - len(base) >= cyl or len(img) < len(base):
-        viol('C12.padding', 'padding %d is not less than one cylinder (%d)' % (len(img) - len(base), cyl))
+    pad = len(img) - len(base)
+    gpt_room = 33 * 512 if variant != 'plain' else 0
+    if len(img) < len(base) or pad >= cyl + gpt_room:
+        viol('C12.padding', 'padding %d is more than needed (cylinder %d, room for the backup GPT %d)' % (pad, cyl, gpt_room))
+    if pad < gpt_room:
+        viol('C12.padding/backup-gpt-overlaps', 'padding %d is smaller than the backup GPT (%d bytes): it overwrites the end of the ISO' % (pad, gpt_room))
     if variant == 'plain' and any(img[len(base):]):
         viol('C12.padding', 'cylinder padding is not zero')
     # --- MBR
